@@ -341,7 +341,11 @@ class Gen:
         kind = self.rng.choice(['inv', 'solve', 'det', 'logdet', 'trace', 'qr', 'cholesky', 'eigh', 'lu', 'svd', 'qr_full', 'eig'])
         if self.allow is not None and ('la:' + kind) not in self.allow and 'la' not in self.allow:
             return False
-        self.steps.append({'op': 'mkmat', 'a': a, 'n': n, 'sym': kind in ('cholesky', 'eigh', 'logdet', 'eig'), 'kind': kind})
+        sym = kind in ('cholesky', 'eigh', 'logdet', 'eig')
+        perm = list(range(n))
+        if not sym and self.rng.random() < 0.6:
+            self.rng.shuffle(perm)           # dominant entries off the diagonal: LU needs row exchanges (incl. 3-cycles)
+        self.steps.append({'op': 'mkmat', 'a': a, 'n': n, 'sym': sym, 'kind': kind, 'perm': perm})
         m = self.new((n, n), (-2.0, 6.0))
         self.steps.append({'op': 'la', 'kind': kind, 'a': m})
         shape = {'inv': (n, n), 'solve': (n,), 'det': (), 'logdet': (), 'trace': (), 'qr': (n, n), 'cholesky': (n, n),
@@ -382,7 +386,7 @@ def gen_program(rng, input_shapes=None, maxsteps=8, out_scalar=False, kinds=None
 
 
 # --------------------------------------------------------------------------------------
-def _mkmat(v, n, sym):
+def _mkmat(v, n, sym, perm=None):
     """n x n well conditioned matrix built from the entries of v with the public API only"""
     flat = algopy.reshape(v, (int(np.prod(np.shape(v.x) if hasattr(v, 'x') else v.shape)),)) if len(v.shape) != 1 else v
     m = flat.shape[0] if not hasattr(flat, 'x') else flat.shape[0]
@@ -393,7 +397,7 @@ def _mkmat(v, n, sym):
             e = t[(i * n + j) % m] * 0.4
             if sym and j < i:
                 continue
-            M[i, j] = e + (3.0 + i if i == j else 0.0)
+            M[(perm[i] if perm else i), j] = e + (3.0 + i if i == j else 0.0)
             if sym and j > i:
                 M[j, i] = e + 0.0
     return M
@@ -428,7 +432,7 @@ def _la(kind, M):
         return l
     if kind == 'lu':
         W, L, U = algopy.lu(M)
-        return algopy.dot(L, U)
+        return algopy.dot(L, U * U)
     if kind == 'svd':
         U, s, V = algopy.svd(M)
         return s
@@ -472,7 +476,7 @@ def run_program(prog, inputs):
             idx = tuple(st['idx'])
             vals[st['buf']][idx[0] if len(idx) == 1 else idx] = vals[st['val']]
         elif op == 'mkmat':
-            vals.append(_mkmat(vals[st['a']], st['n'], st['sym']))
+            vals.append(_mkmat(vals[st['a']], st['n'], st['sym'], st.get('perm')))
         elif op == 'la':
             vals.append(_la(st['kind'], vals[st['a']]))
         else:
